@@ -10,8 +10,14 @@ CFG = {'assumptions': ["64*len(bm) < 2^31 (Go's int32 positions cannot overflow;
                              'bitmap.IndexRank64(bm, trailing)',
         'bitmap.Next/held': 'bitmap.NextOne / bitmap.PrevOne: a list of queries on ONE slice, run twice, slice '
                             'compared with a copy',
+        'bitmap.Next/realloc': 'R rounds of: allocate A, query, drop, runtime.GC(), allocate B of the same length, '
+                               'query, drop, GC',
+        'bitmap.Next/session': 'bitmap.NextOne / bitmap.PrevOne and in-place bit sets (bm[i>>6] |= 1<<(i&63)) in order '
+                               'on ONE slice',
         'bitmap.NextOne': 'bitmap.NextOne',
         'bitmap.NextOne/ends': 'bitmap.NextOne (for every end in [i, 64*len])',
+        'bitmap.NextOne/huge': 'bitmap.NextOne on a bitmap of 2^17+ words (model evaluated by the suffix scan '
+                               'NextOneFast = NextOne)',
         'bitmap.NextOne/iter': 'loop "for i < end { p := NextOne(bm,i,end); if p < 0 {break}; out = append(out,p); i = '
                                'p+1 }"',
         'bitmap.NextOne/sparse': 'bitmap.NextOne (run-length coded bitmap argument; model = int32 model NextOne32)',
@@ -43,4 +49,8 @@ CFG = {'assumptions': ["64*len(bm) < 2^31 (Go's int32 positions cannot overflow;
          '(thorough: also 5) over {0,1,1<<63} with at most two non-zero words x every ordered pair of NextOne/PrevOne '
          "queries with i, end at a word boundary or next to one, run consecutively (session a b a b' a ...), and "
          'random sessions of 600 (thorough 3000) such queries on bitmaps of 5..7 words (zero-word gaps of 2..6 words); '
-         'session shape key = (words, non-zero words, exhaustive or sampled); distinct = distinct (op,args)'}
+         'session shape key = (words, non-zero words, exhaustive or sampled); big-bitmap state (right after the '
+         'sessions, both tiers): sessions WITH in-place updates on bitmaps of 1024..4100 words with zero runs >= 256 '
+         'words (long-gap scan, set a bit in an empty word of a gap, queries answered by that bit) and on small '
+         'bitmaps; re-allocation histories (bitmaps of > 32 KB, B has 1-bits outside the span of A); NextOne over more '
+         'than 2^23 bits with the only 1-bit in the last word; distinct = distinct (op,args)'}
